@@ -15,8 +15,10 @@ QDims == {<<300, 200, 300, 200>>,     \* as announced; two levels
           <<301, 201, 301, 201>>,     \* odd sizes: the half-pixel of the centring
           <<40, 30, 40, 30>>,         \* fits one tile: untiled
           <<120, 60, 40, 30>>,        \* untiled, non-uniform (1/3, 1/2)
-          <<400, 300, 200, 151>>}     \* a half-size rendition whose height was rounded up: non-uniform within the 5 % tolerance
-TDims == QDims \cup {<<150, 100, 300, 200>>, <<200, 300, 200, 300>>, <<80, 60, 40, 30>>, <<256, 256, 256, 256>>,
+          <<400, 300, 200, 152>>}     \* a half-size rendition whose height came out a little larger: non-uniform within the 5 % tolerance
+\* (the thorough tier walks the Q sets as well; the rounded rendition is left out of the T product because its denominators, squared and
+\*  combined with the 13-based rotations, leave TLC's 32-bit integers)
+TDims == (QDims \ {<<400, 300, 200, 152>>}) \cup {<<150, 100, 300, 200>>, <<200, 300, 200, 300>>, <<80, 60, 40, 30>>, <<256, 256, 256, 256>>,
                      <<257, 100, 257, 100>>, <<514, 20, 257, 10>>, <<255, 256, 255, 256>>, <<600, 600, 513, 300>>,
                      <<31, 41, 31, 41>>, <<1024, 768, 320, 240>>}
 QRefPix == {"centre", "frac", "outside"}
